@@ -406,7 +406,9 @@ pub fn run(ctx: &Ctx) -> (Report, Meta) {
                 // (a) first reported interval
                 let h1a = a.t[1] - a.t[0];
                 let h1b = b.t[1] - b.t[0];
-                if (h1a - h1b).abs() > 1e-12 * h1a.abs() {
+                // the interval is observed as a difference of two reported times: allow their rounding (2 ulps each)
+                let t_round = 4.0 * f64::EPSILON * a.t[0].abs().max(a.t[1].abs());
+                if (h1a - h1b).abs() > 1e-12 * h1a.abs() + t_round {
                     case["first_intervals"] = json!([h1a, h1b]);
                     rep.violate(&format!("C13/copies_first_interval/{}/{}", m, auto), format!("first reported interval {:e} for one system but {:e} for {} copies", h1a, h1b, mcopies), &case_id, case.clone());
                     return;
@@ -436,19 +438,35 @@ pub fn run(ctx: &Ctx) -> (Report, Meta) {
                     case["counters"] = json!({"single": [a.naccpt, a.nrejct], "copies": [b.naccpt, b.nrejct]});
                     rep.violate(&format!("C13/copies_step_counts/{}/{}", m, auto), format!("{} / {} accepted / rejected steps for one system but {} / {} for {} copies", a.naccpt, a.nrejct, b.naccpt, b.nrejct, mcopies), &case_id, case.clone());
                 }
-                // (c2) each copy accurate
+                // (c2) each copy as accurate as the single system: its error stays within the accuracy bound, or at
+                // least within a small multiple of what the single system delivers on the same problem (the absolute
+                // accuracy of a method is C01's subject; here only the copies are)
                 if method != Method::RK4 {
-                    for (k, &t) in b.t.iter().enumerate() {
-                        let ex = c.exact(t).unwrap();
-                        for j in 0..nn {
-                            let tol = scn.atol.at(j) + scn.rtol.at(j) * ex[j].abs();
-                            let ratio = (b.y[k][j] - ex[j]).abs() / (amp * (b.naccpt.max(1) as f64) * tol);
-                            rep.worst(&format!("copies_err_over_naccpt_tol_{}", m), ratio);
-                            if ratio > k_copy.max(super::c01::k_method(method)) {
-                                rep.violate(&format!("C13/copies_accuracy/{}/{}", m, auto), format!("copy solution at t = {:e} has error {:.0} x naccpt x tol", t, ratio), &case_id, case.clone());
-                                return;
+                    let worst_of = |s: &Solution, ncomp: usize| -> (f64, f64) {
+                        let mut w: f64 = 0.0;
+                        let mut wt = 0.0;
+                        for (k, &t) in s.t.iter().enumerate() {
+                            let ex = c.exact(t).unwrap();
+                            for j in 0..ncomp {
+                                let tol = scn.atol.at(j % nn) + scn.rtol.at(j % nn) * ex[j % nn].abs();
+                                let r = (s.y[k][j] - ex[j % nn]).abs() / (amp * (s.naccpt.max(1) as f64) * tol);
+                                if r > w {
+                                    w = r;
+                                    wt = t;
+                                }
                             }
                         }
+                        (w, wt)
+                    };
+                    let (rs, _) = worst_of(a, nn);
+                    let (rc, tc) = worst_of(b, nn * mcopies);
+                    rep.worst(&format!("copies_err_over_naccpt_tol_{}", m), rc);
+                    if rc.is_finite() && rs.is_finite() && rs > 0.0 {
+                        rep.worst("copies_err_over_single_err", rc / rs.max(1e-3));
+                    }
+                    if rc > k_copy.max(super::c01::k_method(method)) && !(rc <= 10.0 * rs) {
+                        rep.violate(&format!("C13/copies_accuracy/{}/{}", m, auto), format!("copy solution at t = {:e} has error {:.0} x naccpt x tol (single system: {:.0})", tc, rc, rs), &case_id, case.clone());
+                        return;
                     }
                 }
             }
